@@ -31,13 +31,15 @@ Theorem C15_invert_permutation : forall p, In p six_perms ->
 Proof. exact invert_permutation_six. Qed.
 Print Assumptions C15_invert_permutation.
 
-(* On the guard (code in the table, slice axis NOT reversed, the input really
-   is a stack of the announced size -- any sizes, any chunk sizes, any number
-   of directories and channels): the run completes; every voxel of the output
-   equals the pixel the code designates (letters read as directions, channels
-   in order); every voxel lies in a written chunk; and exactly one chunk per
-   cell of the chunk grid was written. *)
-Theorem C15_orientation_pointwise_on_guard : forall j, c15_guard j = true ->
+(* For every code of the table (all 48, forward and reversed slice axes) and
+   every input that really is a stack of the announced size -- any sizes, any
+   chunk sizes, any number of directories and channels: the run completes;
+   every voxel of the output equals the pixel the code designates (letters
+   read as directions, channels in order); every voxel lies in a written
+   chunk; and exactly one chunk per cell of the chunk grid was written.
+   [c15_wf] is only the well-formedness of the input (code in the table,
+   positive sizes, as many files of the right dimensions as the info says). *)
+Theorem C15_orientation_pointwise : forall j, c15_wf j = true ->
   exists ds sx sy sz cx cy cz,
     j_size j = [sx; sy; sz] /\ j_chunk j = [cx; cy; cz] /\ run j = (ds, Ok tt) /\
     (forall x y z c, 0 <= x < sx -> 0 <= y < sy -> 0 <= z < sz -> 0 <= c ->
@@ -45,63 +47,45 @@ Theorem C15_orientation_pointwise_on_guard : forall j, c15_guard j = true ->
     (forall x y z, 0 <= x < sx -> 0 <= y < sy -> 0 <= z < sz ->
        exists ck, In ck ds /\ in_chunk ck x y z = true) /\
     length ds = (Z.to_nat (n_chunks sx cx) * Z.to_nat (n_chunks sy cy) * Z.to_nat (n_chunks sz cz))%nat.
-Proof. exact orientation_on_guard_lemma. Qed.
-Print Assumptions C15_orientation_pointwise_on_guard.
+Proof. exact orientation_pointwise_lemma. Qed.
+Print Assumptions C15_orientation_pointwise.
 
 (* the part of the statement above about groups, on its own *)
-Theorem C15_all_groups_written : forall j, c15_guard j = true ->
+Theorem C15_all_groups_written : forall j, c15_wf j = true ->
   exists ds sx sy sz, j_size j = [sx; sy; sz] /\ fst (run j) = ds /\ snd (run j) = Ok tt /\
     forall x y z, 0 <= x < sx -> 0 <= y < sy -> 0 <= z < sz ->
       exists ck, In ck ds /\ in_chunk ck x y z = true.
 Proof.
-  intros j Hg. destruct (orientation_on_guard_lemma j Hg)
+  intros j Hg. destruct (orientation_pointwise_lemma j Hg)
     as (ds & sx & sy & sz & cx & cy & cz & Hs & _ & Hr & _ & Hcov & _).
   exists ds, sx, sy, sz. rewrite Hr. repeat split; assumption.
 Qed.
 Print Assumptions C15_all_groups_written.
 
+(* Which files each slice group reads, with Python's slice semantics, for
+   both directions and EVERY group including the last one (whose stop is the
+   omitted bound): exactly its slices, in the order of the oriented stack. *)
+Theorem C15_group_selection : forall n d i2 g, i2 = 1 \/ i2 = -1 -> 0 < d -> 0 <= g -> d * g < n ->
+  group_sel n n d i2 g =
+  map (fun i => flip_index n i2 (d * g + i)) (zrange 0 (Z.min (d * (g + 1)) n - d * g)).
+Proof. exact group_sel_spec. Qed.
+Print Assumptions C15_group_selection.
+
 (* non-vacuity: code ASR, 2 x 3 x 4 volume, chunks 2 x 2 x 3, an RGB directory
    and a grey-level directory (4 channels) *)
-Example C15_guard_nonvacuous : c15_guard ras_example = true /\ snd (run ras_example) = Ok tt /\
+Example C15_wf_nonvacuous : c15_wf ras_example = true /\ snd (run ras_example) = Ok tt /\
   read_back (fst (run ras_example)) 1 2 3 3 =
     Some {| s_dir := 1; s_file := 1; s_row := 3; s_col := 2; s_ch := 0 |}.
-Proof. exact guard_nonvacuous. Qed.
+Proof. exact wf_nonvacuous. Qed.
 
-(* Outside the guard.  The arithmetic fact, for every slice count and chunk
-   depth: the last group of a reversed slice axis selects nothing, because
-   its stop index -1 means "the last element" to Python. *)
-Theorem C15_reversed_last_group_empty : forall n d, 0 < n -> 0 < d ->
-  group_sel n n d (-1) ((n - 1) / d) = [].
-Proof. exact reversed_last_group_empty_lemma. Qed.
-Print Assumptions C15_reversed_last_group_empty.
+(* reversed slice axis (third letter I): code LPI, three slices, depth 2 *)
+Example C15_reversed_example : c15_wf lpi_example = true /\
+  map ck_coords (fst (run lpi_example)) = [(0, 2, 0, 2, 0, 2); (0, 2, 0, 2, 2, 3)] /\
+  snd (run lpi_example) = Ok tt /\
+  read_back (fst (run lpi_example)) 0 0 0 0 = Some {| s_dir := 0; s_file := 2; s_row := 1; s_col := 1; s_ch := 0 |} /\
+  read_back (fst (run lpi_example)) 1 1 2 0 = Some {| s_dir := 0; s_file := 0; s_row := 0; s_col := 0; s_ch := 0 |}.
+Proof. exact reversed_example. Qed.
 
-(* hence NO conversion with a reversed slice axis (third letter L, P or I)
-   ever completes, whatever the sizes *)
-Theorem C15_reversed_never_completes : forall j,
-  existsb (code_eqb (j_code j)) possible_axis_orientations = true ->
-  slice_axis_forward (j_code j) = false -> job_wf j = true ->
-  snd (run j) <> Ok tt.
-Proof. exact reversed_never_completes_lemma. Qed.
-Print Assumptions C15_reversed_never_completes.
-
-(* the exact witness: code RAI, one 1 x 1 slice *)
-Theorem C15_reversed_last_group_refuted :
-  c15_guard rai_witness = false /\ job_wf rai_witness = true /\
-  run rai_witness = ([], Crash ValueError).
-Proof. exact reversed_last_group_refuted_lemma. Qed.
-Print Assumptions C15_reversed_last_group_refuted.
-
-(* code LPI, three slices, depth 2: the first group is written correctly, the
-   second aborts the run and its voxels are absent *)
-Theorem C15_reversed_partial_output :
-  map ck_coords (fst (run lpi_witness)) = [(0, 2, 0, 2, 0, 2)] /\ snd (run lpi_witness) = Crash ValueError /\
-  read_back (fst (run lpi_witness)) 0 0 0 0 = designated [76; 80; 73]%N (2, 2, 3) (j_dirs lpi_witness) 0 0 0 0 /\
-  read_back (fst (run lpi_witness)) 0 0 2 0 = None.
-Proof. exact reversed_partial_output_lemma. Qed.
-Print Assumptions C15_reversed_partial_output.
-
-(* the groups before the last one ARE read in reversed order, as intended *)
-Theorem C15_reversed_inner_groups : forall n d g, 0 < d -> 0 <= g -> d * (g + 1) < n ->
-  group_sel n n d (-1) g = map (fun i => n - 1 - d * g - i) (zrange 0 d).
-Proof. exact reversed_inner_group_lemma. Qed.
-Print Assumptions C15_reversed_inner_groups.
+Example C15_rai_single_slice :
+  map ck_coords (fst (run rai_example)) = [(0, 1, 0, 1, 0, 1)] /\ snd (run rai_example) = Ok tt.
+Proof. exact rai_example_ok. Qed.
